@@ -12,14 +12,14 @@ FUNCTIONS = ['math::swap_math::compute_swap', 'math::token_math::try_get_amount_
              'math::bit_math::checked_mul_div_round_up_if', 'math::bit_math::div_round_up_if', 'math::bit_math::div_round_up_if_u256']
 BOUNDS = ['no unrolling needed (loop-free); amounts all u64, fee 0..=100000, liquidity all u128, prices in [MIN_SQRT_PRICE, MAX_SQRT_PRICE]',
           'per-query cap 60 s (quick) / 600 s (thorough); capped queries are reported undischarged, never as success']
-ASSUMPTIONS = ['K12: whenever U256Muldiv::div(n,d) returns, it returns the floor quotient and remainder (assumed; smoke-checked by Kani on sub-domains only). '
+ASSUMPTIONS = ['K12: whenever U256Muldiv::div(n,d) returns, it returns the floor quotient and remainder (assumed for the Knuth / native-u128 paths; smoke-checked by Kani on low-entropy sub-domains; the two EARLY RETURNS — zero dividend, and dividend with fewer 64-bit words than the divisor: quotient 0, remainder = dividend — are decided at full limb width by c02_k12_div_small_dividend_*). '
                'It does NOT always return: the Kani 4-word/3-word smoke harness found an out-of-bounds read of items[4] (panic) in the add-back branch of the carry iteration, '
                'natively confirmed e.g. by try_get_amount_delta_a(p(150000), p(150001), 276488252483076937113912584913284308804, true); it needs a quotient >= 2^64, i.e. inputs on which '
                'the non-panicking result could only be ExceedsMax. No property constrains failing computations, so this is an observation, not a finding; the `f_no_panic` '
                'obligations below are therefore to be read as "no panic outside U256Muldiv::div"',
                'K1-K11: 256-bit add/sub/shift/compare/mul kernels meet their integer contracts (Kani, C02 kernel harnesses)',
                'MIR of the nightly compiler agrees with the SBF build on safe integer code']
-OUTSIDE = ['defects confined to the internals of U256Muldiv::div/div_loop', 'obligations listed as undischarged in this file']
+OUTSIDE = ['defects confined to the Knuth / native-u128 paths of U256Muldiv::div/div_loop outside the smoke-checked sub-domains (the early returns are decided), 'obligations listed as undischarged in this file']
 EXPLANATION = 'each feasible MIR path of compute_swap (callee deltas replaced by specs proved equivalent to their MIR) yields obligations (a)-(f) of DESIGN §6 C02'
 
 MINP, MAXP = SP.MINP, SP.MAXP
